@@ -5,7 +5,7 @@ import SkyllhModel.Model.PseudoData
 open Proto Store StoreIO Pseudo
 
 /-  stateful line protocol (state = heap-layer store with roles + plain tables in lock step):
-      reset | init <expcols> <mccols> | newMethod | uniformRA <lo> <hi> <deviates>   (floats as bit patterns)
+      reset | init <expcols> <mccols> | newMethod | uniformRA <lo> <hi> <deviates> | nbkg <n_bkg> <mean_pre_selected> <mean>   (floats as bit patterns)
       genFixed <scr> <sets> | genMC <keep> <presel> <draw> <scr> <sets> <expFields> |
       genComp <keep> <scr> <sets> <rates> <presel> <draw> <expFields> | genSigMC <ev> <post> <empty> <fill> | genSig <cols> | merge b s
       initTrial e <pre> <sel> <idx> <stat> | unblind <pre> <sel> <idx> <stat> | unblindAdopt … | evaluate <fields>
@@ -99,6 +99,7 @@ def answer (st : DState) (line : String) : DState × String :=
     (((g, ts), ([], 0)), s!"h=N cache=N events=N errs={countErrs ⟨[], []⟩ ops} | {dump g ts}")
   | ["uniformRA", lo, hi, us] =>
     (st, fListD fF ((pList pF us).map (fun u => (uniformRA (pF lo) (pF hi) u : Float))))
+  | ["nbkg", n, ms, m] => (st, toString (nBkgSelected (pN n) (pF ms) (pF m)))
   | ["newMethod"] => ((({ st.1.1 with roles := { st.1.1.roles with cache := none } }, st.1.2), st.2), "ok")
   | cmd :: rest =>
     let tmp := cmd == "genSigTmp"
